@@ -125,6 +125,8 @@ def check_subquery(new_tbl, child_tbl, *, is_right: bool = False):
 
                 # See if we still need a subquery
                 test_tbl = Table(new_chain[1])
+                # (tables whose column references were transferred count as ancestors, too)
+                test_tbl._cache.derived_from = test_tbl._cache.derived_from | child_tbl._cache.derived_from
                 new_chain[0].map_col_nodes(
                     lambda expr: test_tbl._cache.cols[expr._uuid]  # noqa: B023
                     if isinstance(expr, Col) and expr._uuid in test_tbl._cache.cols  # noqa: B023
